@@ -283,6 +283,22 @@ def check(repo: Repo, run: Run) -> None:
             run.ob("C07.L4", f"Phase1Transpiler.literal|{term}", True, f"the {term} text reaches its constructor as a string / sanitised value", str(ev.path))
     # constructor prefix sets vs the lexer
     ct = repo.mod("celtypes")
-    src = ast.unparse(class_methods(ct.cls("IntType"))["__new__"])
-    run.ob("C07.L4", "IntType.__new__|hex prefixes", "'0x'" in src and "'-0x'" in src,
-           "IntType parses the hexadecimal spellings the lexer admits (0x.., -0x..)", ct.loc(ct.cls("IntType")))
+    from ..core.paths import paths_of
+    from .c01 import range_decorators
+    from .c10 import arm_label
+
+    icls = ct.cls("IntType")
+    inew = class_methods(icls)["__new__"]
+    src_param = inew.args.args[1].arg if len(inew.args.args) > 1 else "source"
+    seen = set()
+    try:
+        for pth in paths_of(ct, icls, inew, no_inline=set(range_decorators(repo))):
+            _lab, _pos, prefixes = arm_label(ct, icls, inew, pth.conds, src_param)
+            seen |= prefixes or set()
+    except OverflowError:
+        seen = set()
+    if not seen:
+        run.inconclusive("C07.L4", "IntType.__new__|hex prefixes", "no arm of IntType.__new__ tests a constant prefix of the source text")
+    else:
+        run.ob("C07.L4", "IntType.__new__|hex prefixes", {"0x", "0X", "-0x", "-0X"} <= seen,
+               f"IntType has arms for the prefixes {sorted(seen)}; the lexer admits 0x.. / 0X.. and their negatives", ct.loc(icls))
